@@ -102,6 +102,315 @@ def _copy_or_view(e):
     return e, False
 
 
+# --------------------------------------------------------------------------
+# abstract reading of the periodic path: every 1-D array is a sum of pieces "entries [t, t+len) hold source[s + k]"
+# --------------------------------------------------------------------------
+_Q_, _M_ = sp.Symbol("q_", integer=True, nonnegative=True), sp.Symbol("m_", integer=True, nonnegative=True)
+
+
+def _nonneg(e):
+    """e >= 0 for every degree p >= 1 and number of basis functions n >= p (a periodic space has more cells than its degree - 1)?"""
+    e = sp.expand(sp.sympify(e).subs({N: 1 + _Q_ + _M_, P: 1 + _Q_}))
+    try:
+        poly = sp.Poly(e, _Q_, _M_)
+    except sp.PolynomialError:
+        return None
+    if poly.total_degree() > 1:
+        return None
+    cs = [poly.coeff_monomial(_Q_), poly.coeff_monomial(_M_), poly.coeff_monomial(1)]
+    if all(c >= 0 for c in cs):
+        return True
+    if all(c <= 0 for c in cs) and any(c < 0 for c in cs):
+        return False
+    return None
+
+
+def _le(a, b):
+    return _nonneg(b - a) is True
+
+
+class Unk(Exception):
+    pass
+
+
+class _Vec:
+    """length, pieces [(t_lo, t_hi, source, s_lo, reversed?)], fresh = owns its memory (not a view of the stored integrals)"""
+
+    def __init__(self, length, pieces, fresh):
+        self.length, self.pieces, self.fresh = length, list(pieces), fresh
+
+
+class VecReader:
+    def __init__(self, table):
+        self.table = dict(table)
+        self.env = {}
+        self.solves = []          # (call node, rhs _Vec, trans node or None)
+        self.ret = None
+        self.ret_node = None
+        self.shared_writes = []   # statements that write through a view of the stored integrals
+        self.buffered = []        # (statement, why): in-place fancy-index updates that lose repeated indices
+
+    # -- scalars
+    def scalar(self, e):
+        v = _int_attr(e, self.table)
+        if v is not None:
+            return v
+        if isinstance(e, ast.Call) and src(e.func) == "len" and len(e.args) == 1:
+            return self.vec(e.args[0]).length
+        if isinstance(e, ast.Attribute) and e.attr == "size":
+            return self.vec(e.value).length
+        if isinstance(e, ast.Subscript) and isinstance(e.value, ast.Attribute) and e.value.attr == "shape" and src(e.slice) == "0":
+            return self.vec(e.value.value).length
+        if isinstance(e, ast.BinOp) and isinstance(e.op, (ast.Add, ast.Sub, ast.Mult)):
+            a, b = self.scalar(e.left), self.scalar(e.right)
+            return a + b if isinstance(e.op, ast.Add) else a - b if isinstance(e.op, ast.Sub) else a * b
+        raise Unk(f"`{src(e)[:50]}` is not an integer combination of nbasis / degree / ncells")
+
+    def bounds(self, sl, length):
+        lo = sp.Integer(0) if sl.lower is None else self.scalar(sl.lower)
+        hi = length if sl.upper is None else self.scalar(sl.upper)
+        lo = lo + length if lo.is_negative else lo
+        hi = hi + length if hi.is_negative else hi
+        if _le(length, hi) and not _same(length, hi):
+            hi = length           # numpy clips the end of a slice
+        if not (_le(0, lo) and _le(lo, hi) and _le(hi, length)):
+            raise Unk(f"cannot order the slice bounds {lo}, {hi} within the length {length}")
+        return lo, hi
+
+    # -- vectors
+    def restrict(self, v, lo, hi):
+        out = []
+        for tlo, thi, s_, slo, rev in v.pieces:
+            a = lo if _le(tlo, lo) else tlo if _le(lo, tlo) else None
+            b = hi if _le(hi, thi) else thi if _le(thi, hi) else None
+            if a is None or b is None:
+                raise Unk(f"cannot order piece [{tlo}, {thi}) against the slice [{lo}, {hi})")
+            if _le(b, a):
+                continue
+            if rev:
+                raise Unk("slice of a reversed piece")
+            out.append((a - lo, b - lo, s_, slo + (a - tlo), rev))
+        return out
+
+    def vec(self, e):
+        s_ = src(e)
+        if s_ in INTEGRALS:
+            return _Vec(N + P, [(sp.Integer(0), N + P, "I", sp.Integer(0), False)], False)
+        if isinstance(e, ast.Name):
+            v = self.env.get(e.id)
+            if isinstance(v, _Vec):
+                return v
+            raise Unk(f"`{e.id}` is not an array the analysis follows")
+        if isinstance(e, ast.Subscript) and isinstance(e.slice, ast.Slice):
+            base = self.vec(e.value)
+            step = e.slice.step
+            if step is not None and not (isinstance(step, ast.UnaryOp) and isinstance(step.op, ast.USub) and src(step.operand) == "1") \
+                    and src(step) != "1":
+                raise Unk(f"strided slice `{s_[:40]}`")
+            if step is not None and src(step) != "1":
+                if e.slice.lower is not None or e.slice.upper is not None:
+                    raise Unk(f"reversed slice with bounds `{s_[:40]}`")
+                return _Vec(base.length, [(base.length - thi, base.length - tlo, sc, slo, not rev) for tlo, thi, sc, slo, rev in base.pieces], False)
+            lo, hi = self.bounds(e.slice, base.length)
+            return _Vec(hi - lo, self.restrict(base, lo, hi), False)
+        if isinstance(e, ast.Call):
+            f = src(e.func)
+            if isinstance(e.func, ast.Attribute) and e.func.attr in ("copy", "astype", "flatten") and (e.func.attr == "astype" or not e.args):
+                b = self.vec(e.func.value)
+                return _Vec(b.length, b.pieces, True)
+            if f in ("np.copy", "np.array", "numpy.array", "numpy.copy") and e.args:
+                b = self.vec(e.args[0])
+                return _Vec(b.length, b.pieces, True)
+            if f in ("np.asarray", "np.asanyarray", "np.ascontiguousarray", "np.atleast_1d") and e.args:
+                return self.vec(e.args[0])
+            if f in ("np.zeros", "np.empty") and e.args:
+                a = e.args[0]
+                if isinstance(a, (ast.Tuple, ast.List)) and len(a.elts) == 1:
+                    a = a.elts[0]
+                return _Vec(self.scalar(a), [], True)
+            if f in ("np.zeros_like", "np.empty_like") and e.args:
+                return _Vec(self.vec(e.args[0]).length, [], True)
+            if f == "np.concatenate" and e.args and isinstance(e.args[0], (ast.Tuple, ast.List)):
+                off, pieces = sp.Integer(0), []
+                for part in e.args[0].elts:
+                    b = self.vec(part)
+                    pieces += [(tlo + off, thi + off, sc, slo, rev) for tlo, thi, sc, slo, rev in b.pieces]
+                    off = off + b.length
+                return _Vec(off, pieces, True)
+            if f == "np.pad" and len(e.args) == 2 and isinstance(e.args[1], (ast.Tuple, ast.List)) and len(e.args[1].elts) == 2 and \
+                    not [k for k in e.keywords if k.arg not in ("mode", "constant_values")]:
+                b = self.vec(e.args[0])
+                before, after = self.scalar(e.args[1].elts[0]), self.scalar(e.args[1].elts[1])
+                return _Vec(b.length + before + after, [(tlo + before, thi + before, sc, slo, rev) for tlo, thi, sc, slo, rev in b.pieces], True)
+            if f == "self._splu.solve" and e.args:
+                rhs = self.vec(e.args[0])
+                tr = [k.value for k in e.keywords if k.arg == "trans"] or list(e.args[1:2])
+                self.solves.append((e, rhs, tr[0] if tr else None))
+                return _Vec(rhs.length, [(sp.Integer(0), rhs.length, ("solve", len(self.solves) - 1), sp.Integer(0), False)], True)
+            raise Unk(f"call `{s_[:50]}`")
+        if isinstance(e, ast.BinOp) and isinstance(e.op, ast.Add):
+            a, b = self.vec(e.left), self.vec(e.right)
+            if not _same(a.length, b.length):
+                raise Unk(f"`{s_[:50]}` adds arrays of {a.length} and {b.length} entries")
+            return _Vec(a.length, a.pieces + b.pieces, True)
+        raise Unk(f"`{s_[:50]}` is not an array expression the analysis follows")
+
+    def tracked(self, st):
+        for x in ast.walk(st):
+            if isinstance(x, ast.Name) and isinstance(self.env.get(x.id), _Vec):
+                return True
+            if isinstance(x, ast.Attribute) and src(x) in INTEGRALS:
+                return True
+            if isinstance(x, ast.Call) and src(x.func) == "self._splu.solve":
+                return True
+        return False
+
+    def target(self, t, st):
+        """(vector object, lo, hi) of a store target `X`, `X[:]`, `X[a:b]`"""
+        if isinstance(t, ast.Name):
+            v = self.vec(t)
+            return v, sp.Integer(0), v.length
+        if isinstance(t, ast.Subscript) and isinstance(t.slice, ast.Slice) and t.slice.step is None:
+            v = self.vec(t.value)
+            owner = v
+            if isinstance(t.value, ast.Subscript):
+                raise Unk(f"store through a slice of a slice `{src(t)[:40]}`")
+            lo, hi = self.bounds(t.slice, v.length)
+            return owner, lo, hi
+        raise Unk(f"store target `{src(t)[:40]}`")
+
+    def add_into(self, st, owner, lo, hi, val, replace=False):
+        if not _same(hi - lo, val.length):
+            raise Unk(f"`{src(st)[:60]}`: {val.length} values for {hi - lo} places")
+        if not owner.fresh:
+            self.shared_writes.append(st)
+        if replace:
+            kept = []
+            for tlo, thi, sc, slo, rev in owner.pieces:
+                if _le(thi, lo) or _le(hi, tlo):
+                    kept.append((tlo, thi, sc, slo, rev))
+                    continue
+                if rev:
+                    raise Unk("store over a reversed piece")
+                if _le(tlo, lo) and not _same(tlo, lo):
+                    kept.append((tlo, lo, sc, slo, rev))
+                elif not _le(lo, tlo):
+                    raise Unk(f"cannot order {tlo} and {lo}")
+                if _le(hi, thi) and not _same(hi, thi):
+                    kept.append((hi, thi, sc, slo + (hi - tlo), rev))
+                elif not _le(thi, hi):
+                    raise Unk(f"cannot order {thi} and {hi}")
+            owner.pieces = kept
+        owner.pieces = owner.pieces + [(tlo + lo, thi + lo, sc, slo, rev) for tlo, thi, sc, slo, rev in val.pieces]
+
+    def wrapped_index(self, e):
+        """`np.arange(L) % m` -> (L, m); `np.arange(L)` -> (L, None)"""
+        mod = None
+        if isinstance(e, ast.BinOp) and isinstance(e.op, ast.Mod):
+            mod, e = self.scalar(e.right), e.left
+        elif isinstance(e, ast.Call) and src(e.func) in ("np.mod", "np.remainder") and len(e.args) == 2:
+            mod, e = self.scalar(e.args[1]), e.args[0]
+        if isinstance(e, ast.Call) and src(e.func) in ("np.arange", "range") and len(e.args) == 1:
+            return self.scalar(e.args[0]), mod
+        return None
+
+    def scatter_add(self, st, owner, idx, val):
+        L, m = idx
+        if not _same(L, val.length):
+            raise Unk(f"`{src(st)[:60]}`: {L} indices for {val.length} values")
+        if m is None:
+            return self.add_into(st, owner, sp.Integer(0), L, val)
+        if not _same(m, owner.length):
+            raise Unk(f"`{src(st)[:60]}`: indices modulo {m} into {owner.length} entries")
+        if _le(L, m):
+            return self.add_into(st, owner, sp.Integer(0), L, val)
+        if not _le(L, 2 * m):
+            raise Unk(f"`{src(st)[:60]}`: cannot bound {L} by twice {m}")
+        first = _Vec(m, self.restrict(val, sp.Integer(0), m), True)
+        second = _Vec(L - m, self.restrict(val, m, L), True)
+        self.add_into(st, owner, sp.Integer(0), m, first)
+        self.add_into(st, owner, sp.Integer(0), L - m, second)
+
+    def run(self, stmts):
+        for st in stmts:
+            if self.ret is not None:
+                break
+            self.stmt(st)
+
+    def stmt(self, st):
+        if isinstance(st, (ast.Assert, ast.Pass)) or (isinstance(st, ast.Expr) and isinstance(st.value, ast.Constant)):
+            return
+        if isinstance(st, ast.Return):
+            self.ret_node = st
+            if st.value is None:
+                raise Unk("returns nothing")
+            self.ret = self.vec(st.value)
+            return
+        if isinstance(st, ast.Assign) and len(st.targets) == 1 and isinstance(st.targets[0], ast.Name):
+            name = st.targets[0].id
+            try:
+                self.table[name] = self.scalar(st.value)
+                self.env.pop(name, None)
+                return
+            except Unk:
+                self.table.pop(name, None)
+            try:
+                self.env[name] = self.vec(st.value)
+            except Unk:
+                self.env.pop(name, None)
+                if self.tracked(st.value):
+                    raise
+            return
+        if isinstance(st, ast.Assign) and len(st.targets) == 1 and isinstance(st.targets[0], ast.Subscript) and \
+                isinstance(st.targets[0].value, ast.Name) and isinstance(self.env.get(st.targets[0].value.id), _Vec):
+            if isinstance(st.value, ast.Constant) and st.value.value == 0:
+                owner, lo, hi = self.target(st.targets[0], st)
+                return self.add_into(st, owner, lo, hi, _Vec(hi - lo, [], True), replace=True)
+            owner, lo, hi = self.target(st.targets[0], st)
+            val = self.vec(st.value)
+            val = _Vec(val.length, list(val.pieces), True)
+            return self.add_into(st, owner, lo, hi, val, replace=True)
+        if isinstance(st, ast.AugAssign) and isinstance(st.op, ast.Add) and self.tracked(st.target):
+            t = st.target
+            if isinstance(t, ast.Subscript) and not isinstance(t.slice, ast.Slice):
+                idx = self.wrapped_index(t.slice)
+                if idx is not None and idx[1] is not None and not _le(idx[0], idx[1]):
+                    self.buffered.append((st, f"`{src(st)[:80]}` adds through an index array in which positions repeat ({idx[0]} indices modulo "
+                                              f"{idx[1]}): the in-place operation is buffered, each entry receives only the last of its addends"))
+                    owner = self.vec(t.value)
+                    return self.scatter_add(st, owner, (idx[0], None) if False else idx, self.vec(st.value))
+                raise Unk(f"`{src(st)[:60]}`")
+            owner, lo, hi = self.target(t, st)
+            return self.add_into(st, owner, lo, hi, self.vec(st.value))
+        if isinstance(st, ast.Expr) and isinstance(st.value, ast.Call) and src(st.value.func) in ("np.add.at", "numpy.add.at") and len(st.value.args) == 3:
+            owner = self.vec(st.value.args[0])
+            idx = self.wrapped_index(st.value.args[1])
+            if idx is None:
+                raise Unk(f"index of `{src(st)[:60]}`")
+            return self.scatter_add(st, owner, idx, self.vec(st.value.args[2]))
+        if isinstance(st, (ast.If, ast.For, ast.While, ast.With, ast.Try)):
+            if self.tracked(st):
+                raise Unk(f"`{src(st)[:50]}...`: control flow on the periodic path is not followed")
+            return
+        if self.tracked(st):
+            raise Unk(f"`{src(st)[:60]}` is not followed")
+
+
+def _coverage(v, lo, hi):
+    """multiset of (source, offset, reversed) of the pieces covering [lo, hi); None when a piece overlaps it partially"""
+    out = []
+    if _same(lo, hi):
+        return out
+    for tlo, thi, sc, slo, rev in v.pieces:
+        if _le(thi, lo) or _le(hi, tlo):
+            continue
+        if _le(tlo, lo) and _le(hi, thi):
+            out.append((sc, sp.expand(slo - tlo), rev))
+        else:
+            return None
+    return sorted(out, key=str)
+
+
 def weights_mechanism(chk):
     imod = chk.mod(U.INTERP)
     fn = chk.func(U.INTERP, QF)
@@ -112,25 +421,36 @@ def weights_mechanism(chk):
     # ---- periodic: the value returned is splu.solve(<folded integrals>, trans='T')
     body = bodies[True]
     rets = [st for st in _flat(body) if isinstance(st, ast.Return)]
-    okp, badp, rhs = False, None, None
-    if len(rets) == 1 and rets[0].value is not None:
-        v = rets[0].value
-        if isinstance(v, ast.Name):
-            d = _def_of(v.id, body, rets[0])
-            if d is not None and d[2] is None:
-                v = d[1]
-        if isinstance(v, ast.Call) and src(v.func) == "self._splu.solve" and v.args:
-            rhs = v.args[0]
-            tr = [k.value for k in v.keywords if k.arg == "trans"] or list(v.args[1:2])
-            if tr and isinstance(tr[0], ast.Constant) and tr[0].value in ("T", "H"):
+    R = VecReader(_interp_table(True))
+    why = None
+    try:
+        R.run(body)
+    except Unk as e:
+        why = str(e)
+    okp, badp, solve = None, None, None
+    if why is None and R.ret is not None:
+        cov = _coverage(R.ret, sp.Integer(0), N)
+        if _same(R.ret.length, N) and cov is not None and len(cov) == 1 and isinstance(cov[0][0], tuple) and _same(cov[0][1], 0) and not cov[0][2]:
+            solve = R.solves[cov[0][0][1]]
+            call, _rhs, tr = solve
+            if tr is not None and isinstance(tr, ast.Constant) and tr.value in ("T", "H"):
                 okp = True
-            elif not tr or (isinstance(tr[0], ast.Constant) and tr[0].value == "N"):
-                badp = (f"`{src(v)[:70]}` solves A w = I with the interpolation matrix itself, not with its transpose: the result is not "
-                        "the vector of quadrature weights (u.w differs from the integral of the interpolant)")
-    chk.pat("Q1-transposed-solve", rets[0] if rets else fn, "periodic: splu.solve(folded integrals, trans='T')", okp,
-            "the periodic weights solve the transposed system with the interpolation LU", badp, file=U.INTERP, func=QF)
+            elif tr is None or (isinstance(tr, ast.Constant) and tr.value == "N"):
+                okp = False
+                badp = (f"the weights returned are the result of `{src(call)[:70]}`, which solves A w = I with the interpolation matrix itself, "
+                        "not with its transpose: the result is not the vector of quadrature weights (u.w differs from the integral of the "
+                        "interpolant as soon as the collocation matrix is not symmetric, e.g. on a non-uniform periodic grid)")
+        elif not R.solves:
+            why = "the value returned is not the result of a solve with the interpolation LU"
+        else:
+            why = "the value returned is not the n-vector produced by one solve"
+    elif why is None:
+        why = "no value returned on the periodic path"
+    chk.ob("Q1-transposed-solve", (solve[0] if solve else None) or (rets[0] if rets else fn), "periodic: splu.solve(folded integrals, trans='T')", okp,
+           "the periodic weights solve the transposed system with the interpolation LU" if okp else
+           (badp or f"periodic path not followed: {why}"), file=U.INTERP, func=QF)
     # ---- periodic: the right-hand side is I[:n] (a copy) with I[n:] added onto its first p entries
-    periodic_fold(chk, fn, body, rhs)
+    periodic_fold(chk, fn, R, solve, why)
     # ---- clamped: the value returned is solveFunc(bmat, l, u, integrals, ipiv, trans=True)
     body = bodies[False]
     rets = [st for st in _flat(body) if isinstance(st, ast.Return)]
@@ -158,6 +478,15 @@ def weights_mechanism(chk):
                  and src(got[k]) in want.values()]
         unknown = [k for k, w in want.items() if k not in got or (src(got[k]) != w and src(got[k]) not in want.values())]
         b = got.get("b")
+        for _k in range(3):
+            if isinstance(b, ast.Name):
+                d = _def_of(b.id, body, rets[0])
+                stores = [x for x in _flat(body) if isinstance(x, (ast.Assign, ast.AugAssign)) and
+                          any(isinstance(t, ast.Subscript) and src(t.value) == b.id for t in (x.targets if isinstance(x, ast.Assign) else [x.target]))]
+                if d is not None and d[2] is None and not stores:
+                    b = d[1]
+                    continue
+            break
         b_in, fresh = _copy_or_view(b) if b is not None else (None, None)
         b_ok = b is not None and (src(b) in INTEGRALS or src(b_in) in INTEGRALS)
         if wrong:
@@ -202,72 +531,57 @@ def weights_mechanism(chk):
             nontrivial=False)
 
 
-def periodic_fold(chk, fn, body, rhs):
-    table = _interp_table(True)
-    ok, bad = False, None
-    node = fn
-    ints = {}
-    for st in _flat(body):
-        if isinstance(st, ast.Assign) and len(st.targets) == 1 and isinstance(st.targets[0], ast.Name):
-            v = _int_attr(st.value, {**table, **ints})
-            if v is not None:
-                ints[st.targets[0].id] = v
-    table = {**table, **ints}
-    if isinstance(rhs, ast.Name):
-        d = _def_of(rhs.id, body)
-        folds = [st for st in _flat(body) if (isinstance(st, ast.AugAssign) and isinstance(st.op, ast.Add) and isinstance(st.target, ast.Subscript)
-                                               and src(st.target.value) == rhs.id)
-                 or (isinstance(st, ast.Assign) and isinstance(st.targets[0], ast.Subscript) and src(st.targets[0].value) == rhs.id)]
-        if d is not None and d[2] is None:
-            node = d[0]
-            inner, fresh = _copy_or_view(d[1])
-            base = _slice_bounds(inner, table, N + P)
-            from_int = isinstance(inner, ast.Subscript) and src(inner.value) in INTEGRALS
-            whole = src(inner) in INTEGRALS
-            if (from_int and base is not None) or whole:
-                lo, hi = base if base is not None else (sp.Integer(0), N + P)
-                if not (_same(lo, 0) and _same(hi, N)):
-                    bad = (f"the right-hand side starts from the integrals [{lo}, {hi}) instead of the n = nbasis integrals [0, n): the "
-                           "periodic system has n unknowns, one per distinct basis function")
-                elif not folds:
-                    bad = ("the integrals of the p wrapped copies (entries n..n+p-1) are never added to the first p entries: because "
-                           "c[n+i] = c[i] each of the first p coefficients multiplies two integrals, and the weights lose the second")
-                else:
-                    f = folds[0]
-                    node = f
-                    tgt = f.target if isinstance(f, ast.AugAssign) else f.targets[0]
-                    val = f.value
-                    if isinstance(f, ast.Assign):
-                        # R[a:b] = R[a:b] + X
-                        if isinstance(val, ast.BinOp) and isinstance(val.op, ast.Add) and src(val.left) == src(tgt):
-                            val = val.right
-                        elif isinstance(val, ast.BinOp) and isinstance(val.op, ast.Add) and src(val.right) == src(tgt):
-                            val = val.left
-                        else:
-                            val = None
-                    tb = _slice_bounds(tgt, table, N)
-                    rev = val is not None and isinstance(val, ast.Subscript) and isinstance(val.slice, ast.Slice) and val.slice.step is not None
-                    vb = _slice_bounds(val, table, N + P) if val is not None and not rev else None
-                    v_from = val is not None and isinstance(val, ast.Subscript) and (src(val.value) in INTEGRALS)
-                    if rev:
-                        bad = (f"`{src(f)}` adds the integrals of the wrapped copies in another order (`{src(val)}`): entry n+i is the "
-                               "wrapped copy of basis function i, so it must be added to entry i")
-                    elif tb is None or vb is None or not v_from:
-                        bad = None
-                    elif not (_same(tb[0], 0) and _same(tb[1], P) and _same(vb[0], N) and _same(vb[1], N + P)):
-                        bad = (f"`{src(f)}` adds the integrals [{vb[0]}, {vb[1]}) onto the entries [{tb[0]}, {tb[1]}): the wrapped copies are "
-                               "the entries [n, n+p) and belong to the first p basis functions [0, p)")
-                    elif fresh is False:
-                        bad = (f"`{src(d[0])[:80]}` does not copy: the fold `{src(f)}` adds the wrapped integrals into the integrals stored in "
-                               "the basis - the first call is right, every later request (any interpolator on this basis) adds them again")
-                    elif fresh:
-                        ok = True
-    elif rhs is not None and (src(rhs) in INTEGRALS or (isinstance(rhs, ast.Subscript) and src(rhs.value) in INTEGRALS)):
-        bad = ("the transposed solve receives the stored integrals without the fold of the wrapped copies: the periodic system has n "
-               "unknowns and each of the first p of them multiplies two integrals")
-    chk.pat("Q2-periodic-fold", node, "I[:n] (copy) with I[n:] added onto the first p entries", ok,
-            "because c[n+i] = c[i], the integrals of the p wrapped copies are added to the first p basis integrals, on a copy", bad,
-            file=U.INTERP, func=QF)
+def periodic_fold(chk, fn, R, solve, why):
+    """the right-hand side of the periodic solve: entry k holds I[k], plus I[n+k] for k < p, in memory of its own"""
+    ok, bad, node = None, None, fn
+    if solve is None and R.solves:
+        solve = R.solves[-1]
+    if solve is not None:
+        call, rhs, _tr = solve
+        node = call
+        first, rest = _coverage(rhs, sp.Integer(0), P), _coverage(rhs, P, N)
+        want_first = sorted([("I", sp.Integer(0), False), ("I", sp.expand(N), False)], key=str)
+        want_rest = [("I", sp.Integer(0), False)]
+        pieces = [(tlo, thi, sc, slo, rev) for tlo, thi, sc, slo, rev in rhs.pieces if not _same(tlo, thi)]
+        if R.buffered:
+            ok, bad, node = False, R.buffered[0][1] + " - the integrals of the wrapped copies are lost", R.buffered[0][0]
+        elif _same(rhs.length, N) and first == want_first and (rest == want_rest or _same(P, N)):
+            if R.shared_writes:
+                ok, node = False, R.shared_writes[0]
+                bad = (f"`{src(R.shared_writes[0])[:80]}` writes through a view of the integrals stored in the basis (no copy was taken): "
+                       "the first call is right, every later request (any interpolator on this basis) adds the wrapped integrals again")
+            else:
+                ok = True
+        elif any(sc != "I" for _a, _b, sc, _c, _d in pieces):
+            ok = None
+        else:
+            base = [(tlo, thi, slo) for tlo, thi, sc, slo, rev in pieces if _same(slo, tlo) and not rev]
+            base.sort(key=lambda b_: 0 if (_same(b_[0], 0) and _same(b_[1], N)) else 1)
+            base = base[:1]
+            extra = [(tlo, thi, slo, rev) for tlo, thi, sc, slo, rev in pieces if not (base and _same(tlo, base[0][0]) and _same(thi, base[0][1])
+                                                                                        and _same(slo, base[0][2]) and not rev)]
+            if not _same(rhs.length, N) or not base or not (_same(base[0][0], 0) and _same(base[0][1], N)):
+                lo, hi = (base[0][2], base[0][2] + base[0][1] - base[0][0]) if base else (sp.Integer(0), sp.Integer(0))
+                ok = False
+                bad = (f"the right-hand side has {rhs.length} entries and starts from the integrals [{lo}, {hi}) instead of the n = nbasis "
+                       "integrals [0, n): the periodic system has n unknowns, one per distinct basis function")
+            elif not extra:
+                ok = False
+                bad = ("the integrals of the p wrapped copies (entries n..n+p-1) are never added to the first p entries: because "
+                       "c[n+i] = c[i] each of the first p coefficients multiplies two integrals, and the weights lose the second")
+            elif any(rev for _a, _b, _c, rev in extra):
+                ok = False
+                bad = ("the integrals of the wrapped copies are added in reversed order: entry n+i is the wrapped copy of basis function i, "
+                       "so it must be added to entry i")
+            elif len(extra) == 1:
+                tlo, thi, slo, _r = extra[0]
+                ok = False
+                bad = (f"the integrals [{slo}, {sp.expand(slo + thi - tlo)}) are added onto the entries [{tlo}, {thi}): the wrapped copies are "
+                       "the entries [n, n+p) and belong to the first p basis functions [0, p)")
+    chk.ob("Q2-periodic-fold", node, "I[:n] (copy) with I[n:] added onto the first p entries", ok,
+           "because c[n+i] = c[i], the integrals of the p wrapped copies are added to the first p basis integrals, on a copy" if ok else
+           (bad or f"right-hand side of the periodic solve not followed: {why or 'its pieces are not slices of the stored integrals'}"),
+           file=U.INTERP, func=QF)
 
 
 # --------------------------------------------------------------------------
@@ -292,6 +606,261 @@ def _facts(cu, per):
 
 def _is_integrals(e):
     return src(e) in ("self._integrals", "self.integrals")
+
+
+# --------------------------------------------------------------------------
+# clamped uniform cubic: what each boundary function loses
+# --------------------------------------------------------------------------
+_DX = sp.Symbol("dx", positive=True)
+_V = [sp.Symbol(f"v{k}", positive=True) for k in range(5)]      # the 5 values of the degree-4 basis at the test point
+
+
+def _outside(m):
+    """what function m from a boundary (m = 0, 1, 2) loses: dx x (v0 + ... + v[2-m])"""
+    return _DX * sum(_V[:3 - m])
+
+
+class _Small:
+    """symbolic reading of short literal vectors (at most a handful of entries): np.array([...]), values[:3], np.cumsum, [::-1], np.tile,
+    np.concatenate, scalar x vector.  Every entry is a sympy expression over dx and the basis values; nothing is executed."""
+
+    def __init__(self, body, before, dx_names, val_names):
+        self.body, self.before, self.dx, self.vals = body, before, dx_names, val_names
+
+    def resolve(self, e):
+        if isinstance(e, ast.Name) and e.id not in self.dx and e.id not in self.vals:
+            d = _def_of(e.id, self.body, self.before)
+            if d is not None and d[2] is None:
+                return d[1]
+        return e
+
+    def scalar(self, e):
+        e = self.resolve(e)
+        if isinstance(e, ast.Constant) and isinstance(e.value, (int, float)) and not isinstance(e.value, bool):
+            return sp.nsimplify(e.value)
+        if (isinstance(e, ast.Name) and e.id in self.dx) or src(e) in ("self.knots[2]", "self._knots[2]"):
+            return _DX
+        if isinstance(e, ast.UnaryOp) and isinstance(e.op, ast.USub):
+            return -self.scalar(e.operand)
+        if isinstance(e, ast.BinOp) and isinstance(e.op, (ast.Add, ast.Sub, ast.Mult, ast.Div)):
+            a, b = self.scalar(e.left), self.scalar(e.right)
+            return a + b if isinstance(e.op, ast.Add) else a - b if isinstance(e.op, ast.Sub) else a * b if isinstance(e.op, ast.Mult) else a / b
+        if isinstance(e, ast.Call) and src(e.func) in ("sum", "np.sum") and len(e.args) == 1 and not e.keywords:
+            return sum(self.vector(e.args[0]), sp.Integer(0))
+        if isinstance(e, ast.Subscript) and isinstance(e.value, ast.Name) and e.value.id in self.vals and isinstance(e.slice, ast.Constant) \
+                and isinstance(e.slice.value, int) and 0 <= e.slice.value < 5:
+            return _V[e.slice.value]
+        raise Unk(f"scalar `{src(e)[:40]}`")
+
+    def const_int(self, e):
+        if e is None:
+            return None
+        if isinstance(e, ast.Constant) and isinstance(e.value, int) and not isinstance(e.value, bool):
+            return e.value
+        if isinstance(e, ast.UnaryOp) and isinstance(e.op, ast.USub) and isinstance(e.operand, ast.Constant) and isinstance(e.operand.value, int):
+            return -e.operand.value
+        raise Unk(f"bound `{src(e)[:30]}` is not a literal integer")
+
+    def vector(self, e):
+        e = self.resolve(e)
+        if isinstance(e, ast.Name) and e.id in self.vals:
+            return list(_V)
+        if isinstance(e, ast.Subscript) and isinstance(e.slice, ast.Slice):
+            base = self.vector(e.value)
+            return base[slice(self.const_int(e.slice.lower), self.const_int(e.slice.upper), self.const_int(e.slice.step))]
+        if isinstance(e, (ast.List, ast.Tuple)):
+            return [self.scalar(x) for x in e.elts]
+        if isinstance(e, ast.Call):
+            f = src(e.func)
+            if f in ("np.array", "np.asarray") and e.args:
+                return self.vector(e.args[0])
+            if f == "np.cumsum" and len(e.args) == 1:
+                v, out, acc = self.vector(e.args[0]), [], sp.Integer(0)
+                for x in v:
+                    acc = acc + x
+                    out.append(acc)
+                return out
+            if f in ("np.flip", "np.flipud") and len(e.args) == 1:
+                return list(reversed(self.vector(e.args[0])))
+            if f == "np.tile" and len(e.args) == 2:
+                return self.vector(e.args[0]) * self.const_int(e.args[1])
+            if f in ("np.concatenate", "np.hstack") and e.args and isinstance(e.args[0], (ast.List, ast.Tuple)):
+                return [x for part in e.args[0].elts for x in self.vector(part)]
+            if f == "np.arange" and len(e.args) == 1:
+                return [sp.Integer(k) for k in range(self.const_int(e.args[0]))]
+            raise Unk(f"vector `{src(e)[:40]}`")
+        if isinstance(e, ast.UnaryOp) and isinstance(e.op, ast.USub):
+            return [-x for x in self.vector(e.operand)]
+        if isinstance(e, ast.BinOp) and isinstance(e.op, (ast.Mult, ast.Add, ast.Sub, ast.Div)):
+            def side(x):
+                try:
+                    return self.scalar(x), False
+                except Unk:
+                    return self.vector(x), True
+            (a, av), (b, bv) = side(e.left), side(e.right)
+            op = {ast.Mult: lambda x, y: x * y, ast.Add: lambda x, y: x + y, ast.Sub: lambda x, y: x - y, ast.Div: lambda x, y: x / y}[type(e.op)]
+            if av and bv:
+                if len(a) != len(b):
+                    raise Unk("lengths")
+                return [op(x, y) for x, y in zip(a, b)]
+            if av:
+                return [op(x, b) for x in a]
+            if bv:
+                return [op(a, y) for y in b]
+        raise Unk(f"vector `{src(e)[:40]}`")
+
+    def indices(self, sub):
+        """literal positions of a subscript of the integrals array: slice with literal bounds at one end, or a literal index vector"""
+        sl = sub.slice
+        if isinstance(sl, ast.Slice):
+            lo, hi, step = self.const_int(sl.lower), self.const_int(sl.upper), self.const_int(sl.step)
+            if step not in (None, 1):
+                raise Unk("strided slice")
+            if lo is None and hi is not None and hi > 0:
+                return list(range(0, hi)), "slice"
+            if hi is None and lo is not None and lo < 0:
+                return list(range(lo, 0)), "slice"
+            raise Unk(f"slice `{src(sub)[:40]}`")
+        v = self.vector(sl)
+        if not all(x.is_Integer for x in v):
+            raise Unk("index vector is not literal")
+        return [int(x) for x in v], "fancy"
+
+
+def boundary_reduction(cu, dx_names, val_names):
+    """-> (verdict, diagnosis, node).  Every function m = 0, 1, 2 counted from the start of the domain and every function m counted from its end
+    must lose dx x sum(values[:3 - m]), by a subtraction that is applied once per END (a function that reaches both ends loses both parts)."""
+    flat = _flat(cu)
+    I_ = sp.Symbol("i_", integer=True)
+    node = None
+
+    def is_int_sub(t):
+        return isinstance(t, ast.Subscript) and _is_integrals(t.value)
+
+    # ---- loops over the three boundary functions (one loop for both ends, or one loop per end)
+    loops = [st for st in flat if isinstance(st, ast.For) and any(isinstance(x, (ast.AugAssign, ast.Assign)) and
+                                                                  is_int_sub(x.target if isinstance(x, ast.AugAssign) else x.targets[0])
+                                                                  for x in ast.walk(st))]
+    vec_subs = [st for st in flat if not any(st in list(ast.walk(lp)) for lp in loops) and
+                ((isinstance(st, ast.AugAssign) and isinstance(st.op, ast.Sub) and is_int_sub(st.target)) or
+                 (isinstance(st, ast.Expr) and isinstance(st.value, ast.Call) and src(st.value.func) in ("np.subtract.at", "numpy.subtract.at")
+                  and len(st.value.args) == 3 and _is_integrals(st.value.args[0])))]
+    if loops and vec_subs:
+        return None, None, loops[0]
+    ends = {"start": [], "end": []}
+    from .C07 import _Sub, clone as _clone
+    for loop in loops:
+        node = node or loop
+        if not (isinstance(loop.iter, ast.Call) and src(loop.iter.func) == "range" and 1 <= len(loop.iter.args) <= 2 and isinstance(loop.target, ast.Name)):
+            return None, None, loop
+        bounds = [_int_attr(a, {}) for a in loop.iter.args]
+        if any(b is None for b in bounds):
+            return None, None, loop
+        lo, hi = (sp.Integer(0), bounds[0]) if len(bounds) == 1 else bounds
+        iv = loop.target.id
+        env, reds = {}, []
+        counts = {}
+        for x in ast.walk(loop):
+            if isinstance(x, ast.Name) and isinstance(x.ctx, ast.Store):
+                counts[x.id] = counts.get(x.id, 0) + 1
+        for st in loop.body:
+            st2 = _Sub(env).visit(_clone(st))
+            if isinstance(st2, ast.Assign) and len(st2.targets) == 1 and isinstance(st2.targets[0], ast.Name) and counts.get(st2.targets[0].id) == 1:
+                env[st2.targets[0].id] = st2.value
+                continue
+            if isinstance(st2, ast.AugAssign) and isinstance(st2.op, ast.Sub) and is_int_sub(st2.target):
+                reds.append(st2)
+                continue
+            if isinstance(st2, ast.Assign) and is_int_sub(st2.targets[0]):
+                return None, None, loop           # assigned, not reduced: the caller names this form
+            if any(_is_integrals(y) for y in ast.walk(st2)):
+                return None, None, loop
+        for r in reds:
+            idx = _int_attr(r.target.slice, {iv: I_})
+            v = r.value
+            K = None
+            if isinstance(v, ast.BinOp) and isinstance(v.op, ast.Mult):
+                for a, b in ((v.left, v.right), (v.right, v.left)):
+                    is_dx = (isinstance(a, ast.Name) and a.id in dx_names) or src(a) in ("self.knots[2]", "self._knots[2]")
+                    if is_dx and isinstance(b, ast.Call) and src(b.func) in ("sum", "np.sum") and len(b.args) == 1 and not b.keywords and \
+                            isinstance(b.args[0], ast.Subscript) and isinstance(b.args[0].value, ast.Name) and b.args[0].value.id in val_names and \
+                            isinstance(b.args[0].slice, ast.Slice) and b.args[0].slice.step is None and \
+                            (b.args[0].slice.lower is None or src(b.args[0].slice.lower) == "0") and b.args[0].slice.upper is not None:
+                        K = _int_attr(b.args[0].slice.upper, {iv: I_})
+            if idx is None or K is None:
+                return None, None, r
+            c = sp.expand(idx).coeff(I_)
+            if c == 1:
+                ends["start"].append((idx, K, r, lo, hi))                      # function number m = idx from the start
+            elif c == -1:
+                ends["end"].append((sp.expand(-idx - 1), K, r, lo, hi))       # entry -m-1 is function m from the end
+            else:
+                return None, None, r
+    if loops:
+        if not ends["start"] and not ends["end"]:
+            return None, None, node
+        for which, other in (("start", "end"), ("end", "start")):
+            if not ends[which]:
+                return False, (f"only the functions at the {other} of the domain are reduced: the three functions cut by the other boundary keep "
+                               "the full integral dx although part of their support lies outside the domain"), node
+            if len(ends[which]) > 1:
+                return None, None, node
+            m, K, r, lo, hi = ends[which][0]
+            mlo, mhi = sp.expand(m.subs(I_, lo)), sp.expand(m.subs(I_, hi - 1) + 1)
+            if not (_same(mlo, 0) and _same(mhi, 3)):
+                return False, (f"`{src(r)[:70]}` runs over the functions {mlo}..{mhi - 1} counted from the {which} of the domain: the functions cut "
+                               "by a boundary are the first three (0, 1, 2)"), r
+            if not _same(K, 3 - m):
+                M_ = sp.Symbol("m")
+                K_m = sp.expand(K.subs(I_, M_ - sp.expand(m - I_)))
+                return False, (f"`{src(r)[:70]}`: function m (m = 0, 1, 2) from the {which} loses dx x the first {K_m} basis values at the "
+                               "test point; the mass outside the domain is that of the first 3 - m"), r
+        return True, None, node
+    # ---- whole-array subtractions over literal positions
+    subs = vec_subs
+    if not subs:
+        return None, None, None
+    node = subs[0]
+    seen = {"start": {}, "end": {}}
+    try:
+        for st in subs:
+            rd = _Small(cu, st, dx_names, val_names)
+            if isinstance(st, ast.AugAssign):
+                pos, how = rd.indices(st.target)
+                vals = rd.vector(st.value)
+                buffered = how == "fancy"
+            else:
+                fake = ast.Subscript(value=st.value.args[0], slice=st.value.args[1], ctx=ast.Load())
+                pos, how = rd.indices(fake)
+                vals = rd.vector(st.value.args[2])
+                buffered = False
+            if len(pos) != len(vals):
+                return None, None, st
+            if buffered and any(k >= 0 for k in pos) and any(k < 0 for k in pos):
+                return False, (f"`{src(st)[:80]}` subtracts through the index array {pos}, which counts from both ends of the array: with one or two "
+                               "cells (4 or 5 entries) a position from the start and one from the end denote the same entry, and an in-place "
+                               "operation through an index array is buffered - the entry receives only the last of the two subtractions, so a "
+                               "function cut by both boundaries loses one of its two outside parts only"), st
+            if buffered and len(set(pos)) != len(pos):
+                return False, f"`{src(st)[:80]}`: the index array {pos} repeats a position; the buffered in-place subtraction keeps one of them only", st
+            for k, v in zip(pos, vals):
+                which, m = ("start", k) if k >= 0 else ("end", -k - 1)
+                if m in seen[which]:
+                    return None, None, st
+                seen[which][m] = (v, st)
+    except Unk:
+        return None, None, node
+    for which in ("start", "end"):
+        if set(seen[which]) != {0, 1, 2}:
+            if not seen[which]:
+                return False, (f"nothing is subtracted from the three functions at the {which} of the domain: they keep the full integral dx although "
+                               "part of their support lies outside the domain"), node
+            return False, f"the functions {sorted(seen[which])} from the {which} of the domain are reduced: the functions cut by a boundary are 0, 1, 2", node
+        for m, (v, st) in seen[which].items():
+            if sp.expand(v - _outside(m)) != 0:
+                return False, (f"`{src(st)[:70]}`: function {m} from the {which} loses {sp.factor(v)}; the mass outside the domain is "
+                               f"{_outside(m)} (v_k = k-th basis value at the test point)"), st
+    return True, None, node
 
 
 def uniform_cubic_integrals(chk):
@@ -466,34 +1035,40 @@ def uniform_cubic_integrals(chk):
             ok, why = None, f"not extractable: {e}"
     chk.ob("Q3-uniform-cubic", kn_node if kn_node is not None else fn, "auxiliary knots and test point share one origin", ok, why, file=U.SPLINES,
            func=BI)
-    okb = has("for i in range(3):\n    outside = dx * sum(values[:3 - i])\n    self._integrals[i] -= outside\n    self._integrals[-i - 1] -= outside") or \
-        has("for i in range(3):\n    self._integrals[i] -= dx * sum(values[:3 - i])\n    self._integrals[-i - 1] -= dx * sum(values[:3 - i])") or \
-        has("for i in range(3):\n    outside = dx * np.sum(values[:3 - i])\n    self._integrals[i] -= outside\n    self._integrals[-i - 1] -= outside")
+    okb, badb, nodeb = boundary_reduction(cu, dx_names, val_names)
     assigned = [st for st in _flat(cu) if isinstance(st, ast.For) and
                 [x for x in ast.walk(st) if isinstance(x, ast.Assign) and isinstance(x.targets[0], ast.Subscript) and _is_integrals(x.targets[0].value)
                  and src(x.targets[0].slice).replace(" ", "") in ("i", "-i-1", "-1-i", "-(i+1)")
                  and not any(_is_integrals(y) for y in ast.walk(x.value))]]
-    chk.pat("Q3-uniform-cubic", fn, "boundary functions lose the part outside the domain, symmetrically, by subtraction", okb,
-            "the three functions cut by each boundary lose dx x (the mass outside), subtracted at both ends so that a function cut by "
-            "both boundaries (1 or 2 cells) loses both parts",
-            ("the boundary integrals are assigned, not reduced: with one or two cells the assignments of the two ends overwrite each "
-             "other and the stored integrals (hence the weights) are wrong") if assigned and not okb else None,
-            file=U.SPLINES, func=BI)
+    if okb is None and assigned:
+        okb, badb = False, ("the boundary integrals are assigned, not reduced: with one or two cells the assignments of the two ends overwrite each "
+                            "other and the stored integrals (hence the weights) are wrong")
+    chk.ob("Q3-uniform-cubic", nodeb if nodeb is not None else fn, "boundary functions lose the part outside the domain, symmetrically, by subtraction",
+           okb, "the three functions cut by each boundary lose dx x (the mass outside), subtracted at both ends so that a function cut by "
+           "both boundaries (1 or 2 cells) loses both parts" if okb else
+           (badb or "the reduction of the boundary integrals is not followed (neither a loop over the three boundary functions with one "
+                    "subtraction per end, nor whole-array subtractions over literal index sets)"), file=U.SPLINES, func=BI)
     # ---- general branch: one formula for every unwrapped function, the wrapped copies of a periodic space included
     gen = bodies[(False, True)]
     table = _space_table(True)
     loops = [st for st in _flat(gen) if isinstance(st, ast.For) and
              any(isinstance(x, ast.Assign) and isinstance(x.targets[0], ast.Subscript) and _is_integrals(x.targets[0].value) for x in ast.walk(st))]
     okw, badw = False, None
-    if loops and isinstance(loops[0].iter, ast.Call) and src(loops[0].iter.func) == "range" and len(loops[0].iter.args) == 1 \
+    if loops and isinstance(loops[0].iter, ast.Call) and src(loops[0].iter.func) == "range" and 1 <= len(loops[0].iter.args) <= 2 \
             and isinstance(loops[0].target, ast.Name):
         iv = loops[0].target.id
-        rng = _int_attr(loops[0].iter.args[0], table)
+        IV = sp.Symbol("i_", integer=True)
+        bnds = [_int_attr(a, table) for a in loops[0].iter.args]
         stores = [x for x in ast.walk(loops[0]) if isinstance(x, ast.Assign) and isinstance(x.targets[0], ast.Subscript) and
-                  _is_integrals(x.targets[0].value) and src(x.targets[0].slice) == iv]
-        if rng is not None and _same(rng, NC + D) and len(stores) == 1:
+                  _is_integrals(x.targets[0].value)]
+        idxs = [_int_attr(x.targets[0].slice, {**table, iv: IV}) for x in stores]
+        lo = hi = None
+        if all(b is not None for b in bnds) and len(stores) == 1 and idxs[0] is not None and sp.expand(idxs[0]).coeff(IV) == 1:
+            rlo, rhi = (sp.Integer(0), bnds[0]) if len(bnds) == 1 else bnds
+            lo, hi = sp.expand(idxs[0].subs(IV, rlo)), sp.expand(idxs[0].subs(IV, rhi))       # entries [lo, hi) are written
+        if lo is not None and _same(lo, 0) and _same(hi, NC + D):
             okw = True
-        elif rng is not None and _same(rng, NC):
+        elif lo is not None and _same(lo, 0) and _same(hi, NC):
             mirror = [x for st in _flat(gen) if isinstance(st, ast.Assign) and isinstance(st.targets[0], ast.Subscript)
                       and _is_integrals(st.targets[0].value) and isinstance(st.value, ast.Subscript) and _is_integrals(st.value.value)
                       for x in [st]]
